@@ -91,3 +91,27 @@ Proof. vm_compute. reflexivity. Qed.
 (* ... and a trace where it does (the seeded change to ScanBundle) is rejected *)
 Example ex_build_bad_inject : build_trace_ok 1 1 [PSB 0; PRes; PLoad 0; PSE 0] = false.
 Proof. vm_compute. reflexivity. Qed.
+
+(* ---- the service model: a complete session ---- *)
+From V Require Import C20.ServiceSpec C20.ServiceLTS C20.ServiceProofs.
+Definition ex_session : list sact :=
+  [SRecv 10 CPlain; SRecv 1 (CCreate 7); SCallback 10; SRespond 1; SRecv 2 (CRebuild 7); SCResp 0; SRespond 10;
+   SBuildStart 2; SCallback 2; SRecv 3 (CCancel 7); SCResp 1; SBuildEnd 2; SRespond 3; SRespond 2;
+   SRecv 4 (CDispose 7); SRespond 4; SClose; SExit].
+Example ex_session_trace : option_map snd (srun sst0 ex_session) =
+  Some [ECReq 10; ECReq 1; ESReq 0; ESResp 1; ECReq 2; ECResp 0; ESResp 10; ESReq 1; ECReq 3; ECResp 1;
+        ESResp 3; ESResp 2; ECReq 4; ESResp 4; EClose; EExit].
+Proof. vm_compute. reflexivity. Qed.
+(* the process cannot exit while a context is alive or a request is unanswered *)
+Example ex_no_exit_with_context : srun sst0 [SRecv 1 (CCreate 7); SRespond 1; SClose; SExit] = None.
+Proof. vm_compute. reflexivity. Qed.
+Example ex_no_exit_unanswered : srun sst0 [SRecv 1 CPlain; SClose; SExit] = None.
+Proof. vm_compute. reflexivity. Qed.
+(* the checker discriminates *)
+Example ex_svc_bad_unknown : svc_trace_ok [ECReq 1; ESResp 2] = false. Proof. vm_compute. reflexivity. Qed.
+Example ex_svc_bad_twice : svc_trace_ok [ECReq 1; ESResp 1; ESResp 1] = false. Proof. vm_compute. reflexivity. Qed.
+Example ex_svc_bad_exit : svc_trace_ok [ECReq 1; EClose; EExit] = false. Proof. vm_compute. reflexivity. Qed.
+(* the packet trace of the refutation witness has the shape of the recorded transcript *)
+Example ex_witness_trace : option_map snd (srun sst0 (wit_second_dispose ++ [SRespond 4])) =
+  Some [ECReq 1; ESResp 1; ECReq 2; ESReq 0; ECReq 3; ECReq 4; ESResp 4].
+Proof. vm_compute. reflexivity. Qed.
